@@ -507,6 +507,8 @@ pub struct Opts {
     pub multiline_tag_pct: usize,
     /// probability (percent) that a closing tag carries attribute-like content (`</rm c="end">`)
     pub close_attr_pct: usize,
+    /// probability (percent) that the file begins with a byte order mark (in front of a first line of plain code)
+    pub bom_pct: usize,
 }
 
 impl Opts {
@@ -530,6 +532,7 @@ impl Opts {
             join_pct: 0,
             multiline_tag_pct: 0,
             close_attr_pct: 0,
+            bom_pct: 0,
             odd_conditions: true,
             unique_lines: true,
             tag_styles: true,
@@ -945,6 +948,14 @@ pub fn gen_doc_with(t: &mut Tape, o: &Opts, words: Vec<&'static str>, bad: Vec<c
         nodes.push(Node::Line(String::new()));
     }
     nodes.extend(g.nodes(base, max_depth, n, false));
+    // a byte order mark in front of a first line that is plain code (ordinary non-blank text for chiritori)
+    if g.o.bom_pct > 0 && g.t.chance(g.o.bom_pct) {
+        if let Some(Node::Line(l)) = nodes.first_mut() {
+            if !l.trim().is_empty() {
+                l.insert(0, '\u{feff}');
+            }
+        }
+    }
     Doc { nodes, final_newline, unit }
 }
 
